@@ -48,6 +48,11 @@ class SymWorld(S.World):
         self.assumptions.add(f"{name} >= 0 (precondition)")
         return S.atom_array(name, *dims)
 
+    def symm(self, name, batch, D):
+        """symmetric matrix atom [batch..., D, D]"""
+        nb = len([b for b in batch if not (isinstance(b, int) and b == 1)])
+        return S.atom_array(name, *batch, D, D, sym=[(nb, nb + 1)])
+
     def spd(self, name, batch, D):
         """well-formed covariance/precision pair: returns dict S (cov), L (prec), ld (= ln det S)"""
         P, Q, ld = f"S{name}", f"L{name}", f"ld{name}"
@@ -187,6 +192,14 @@ class NumWorld:
 
     def pos(self, name, *dims):
         a = self.rng.uniform(0.2, 1.5, self._shape(dims))
+        self.inputs[name] = a
+        return self.xp.asarray(a)
+
+    def symm(self, name, batch, D):
+        """symmetric positive semi-definite matrix [batch..., D, D]"""
+        sb = self._shape(batch)
+        Dn = self.sizes[D] if isinstance(D, str) else int(D)
+        a = self._rand_spd(sb, Dn)
         self.inputs[name] = a
         return self.xp.asarray(a)
 
